@@ -487,6 +487,12 @@ class FitBase(FileIOMixin, object):
             raise ValueError("Fit data and cost function are not compatible: %s" % _reason)
         self._set_new_parametric_model()
         self._param_model._on_error_change_callback = self._on_error_change
+        # the new data container and parametric model bring their own (or no) uncertainties
+        if self.has_errors:
+            self._on_error_change()
+        else:
+            for _error_name in self._BASIC_ERROR_NAMES:
+                self._nexus.get(_error_name).mark_for_update()
 
     @property
     def data_error(self):
